@@ -39,6 +39,15 @@ CHECKS = {
         design_ref="DESIGN.md §4 C01",
         note="The generator's structural semantics is the trusted reference (core grammar, keyword-free identifiers); InvalidSyntaxException = not accepted by that dialect; known findings are matched only by the narrow 'sources lost under one tagged AST mechanism' shape.",
     ),
+    "C02": dict(
+        technique="reference-model monitor: generated ASTs carry their own column dataflow; get_column_lineage end-to-end pairs compared with it",
+        category="exploration",
+        text="Seeded-random and enumerated statements (expression trees to depth 3 over every select-item kind, 1-3 relations in scope, derived tables, CTEs, set operations, "
+             "INSERT column lists, UPDATE FROM, MERGE) are analysed by the real package; the reported (source column -> target column) pairs, with owners or sorted candidate owners, "
+             "must equal the AST's dataflow.",
+        design_ref="DESIGN.md §4 C02",
+        note="Shapes the property leaves undecided are not generated (mixed stars, stars over CTE references) or tolerated (sub-query rooted pairs of literal-defined columns); the same text analysed exactly under ansi is the referee for per-dialect blind spots.",
+    ),
     "C03": dict(
         technique="history monitor: relational role model replayed over observed per-statement facts, real SQLLineageHolder.of called on every prefix",
         category="exploration",
@@ -55,6 +64,14 @@ CHECKS = {
              "identifier quoting, trailing semicolons, combinations; every single boundary in thorough) and tables, table edges and named column pairs must not change.",
         design_ref="DESIGN.md §4 C07",
         note="A rewritten text that the dialect's own sqlfluff parser rejects is counted, not judged; a quoted token must still parse as an identifier; expression-named columns are compared modulo layout/case/quotes.",
+    ),
+    "C09": dict(
+        technique="differential monitor across 28 dialects and both analyzers on generated core statements, AST meaning as referee",
+        category="exploration",
+        text="Each generated core statement is analysed under every sqlfluff dialect and the non-validating analyzer; accepting dialects must report identical tables and column pairs, "
+             "and the legacy analyzer identical table lineage; a deviating analyzer is judged, the AST's own meaning decides which side deviates.",
+        design_ref="DESIGN.md §4 C09",
+        note="InvalidSyntax/UnsupportedStatement = not accepted; deviations are matched to listed findings only through AST mechanism tags (generic) or listed dialect:mechanism pairs.",
     ),
     "C10": dict(
         technique="invariant monitor on the outcome of every execution over a hostile mutation workload + independent parse oracle + silent-mode differential monitor",
